@@ -304,12 +304,13 @@ class Check:
                 self.cov["samples"].append(x)
 
     # ---------- correspondence ----------
-    def correspond(self, binary, stream, nontrivial=None, classify=None, shrink=None, **kw):
+    def correspond(self, binary, stream, nontrivial=None, classify=None, shrink=None, reconcile=None, rows=None, **kw):
         """rows from the harness: request \t impl reply \t oracle verdict.
         Disagreement (model != impl) => the model no longer describes the code => search:
         any oracle FAIL in this run is the concrete failing input; otherwise
         no-failing-input-found."""
-        rows = harness(binary, stream, **kw)
+        if rows is None:
+            rows = harness(binary, stream, **kw)
         reqs = [r[0] for r in rows if r[0] != "-"]
         replies = drv(reqs) if reqs else []
         it = iter(replies)
@@ -317,7 +318,12 @@ class Check:
         for r in rows:
             if r[0] != "-":
                 m = next(it)
-                if m != r[1]:
+                impl = r[1]
+                if reconcile:
+                    # canonicalise both replies (e.g. JSON key order / number spelling); a model
+                    # reply outside its fragment may be reconciled to agreement and is counted
+                    impl, m = reconcile(r[0], impl, m)
+                if m != impl:
                     dis.append((r, m))
             if len(r) > 2 and r[2].startswith("FAIL"):
                 fails.append(r)
